@@ -136,7 +136,7 @@ def _mentions_acc(loop, test):
 
 
 @rule('SA-SIB.packing.iso')
-@props('C01', 'C03', 'C04', 'C09', 'C17', 'C20')
+@props('C01', 'C03', 'C04', 'C09', 'C20')
 def packing_iso(ctx):
     return _packing(ctx, 'iso-dir-records', 'SA-SIB.packing.iso', True)
 
